@@ -135,6 +135,18 @@ def hist_astype(rng):
 def histories(rng, tier):
     n = 350 if tier == 'quick' else 3000
     out = []
+    # a fixed share of every run: float32 maps with many valid pixels and arithmetic with a float64 numpy scalar
+    # float32 cannot hold (the harness checks correct rounding of every result)
+    for _ in range(8 if tier == 'quick' else 40):
+        c = gen.MapCfg('a', 'plain', 0, rng.choice([1, 2]), dtype='f4')
+        pix = rng.sample(range(c.npix), 24)
+        h = [c.line(), 'upd a op=replace pix=%s vals=%s' % (','.join(map(str, pix)),
+                                                            ','.join(gen.dy(rng, -400, 400, exps=(0, 1, 2, 3)) for _ in pix))]
+        for _ in range(3):
+            h += ['sop a op=%s k=%s ktype=flt npk=f8 %s' % (
+                rng.choice(['mul', 'div', 'mul', 'add']), rng.choice(['53687091^29', '-28633115^26', '11184811^25']),
+                rng.choice(['inplace=1', 'r=t'])), 'state a']
+        out.append(h)
     for _ in range(n):
         r = rng.random()
         out.append(hist_scalar(rng) if r < 0.5 else hist_mask(rng) if r < 0.8 else hist_astype(rng))
